@@ -144,18 +144,20 @@ STATES = ('active', 'stopped', 'stopping', 'one_killed', 'other_stopping')
 SIGS = (15, 'usr1', 'SIGHUP', 9, '10')
 
 
-def c18_confinement(cmd: int, ps: int, cs: int, ch: bool, rec: bool, st: int, sg: int, sc: int) -> bool:
+def c18_confinement(cmd: int, ps: int, cs: int, ch: bool, rec: bool, st: int, sg: int, sc: int, vd: int) -> bool:
     """
     A signal / kill request can only ever signal workers of the NAMED watcher or their descendants, with exactly the
     designated signal; a refused request signals nobody.
 
     pre: 0 <= cmd <= 1 and ps == rt.S['ps'] and 0 <= cs < len(CHILDSEL) and 0 <= st < len(STATES) and 0 <= sg < len(SIGS)
     pre: 0 <= sc <= 1 and (sc == 0 or (cmd == 1 and st == 0))
+    pre: 0 <= vd <= 8 and (vd == 0 or sc == 1)
     pre: st != 4 or (cmd == 0 and (cs == 3 or ps == 3))
     post: _
     """
     from vtlib.harness.scen import World, Beh
     from vtlib.harness import scen
+    from vtlib.world import core
     cmd = rt.pick(cmd, 2)
     ps = rt.pick(ps, len(PIDSEL))
     cs = rt.pick(cs, len(CHILDSEL))
@@ -164,7 +166,7 @@ def c18_confinement(cmd: int, ps: int, cs: int, ch: bool, rec: bool, st: int, sg
     sc = rt.pick(sc, 2)
     with World() as w:
         k = w.kernel
-        k.behaviour = lambda i, argv: Beh(obey=None, nchildren=1, grandchildren=1, child_obey=None)
+        k.behaviour = lambda i, argv: Beh(obey=None, nchildren=2 if sc else 1, grandchildren=0 if sc else 1, child_obey=None)
         wa = w.mk_watcher('a', numprocesses=2, graceful_timeout=0.3, stop_children=bool(sc))
         wb = w.mk_watcher('b', numprocesses=1, graceful_timeout=0.3, stop_children=True)
         w.boot([wa, wb], check_delay=-1)
@@ -202,6 +204,11 @@ def c18_confinement(cmd: int, ps: int, cs: int, ch: bool, rec: bool, st: int, sg
                 props['pid'] = pidv
             sig = SIGS[sg]
             want = spec(sig)
+            vanished = None
+            if sc and vd > 0 and child0:
+                # the first-listed child of the first worker exits by itself at kernel call vd of the request
+                vanished = child0[0]
+                k.injections.append({'at_call': k.calls + vd, 'victim': ('pid', vanished), 'status': core.status_exit(0)})
             n0 = len(k.signal_log)
             if cmd == 0:
                 props['signum'] = sig
@@ -233,6 +240,18 @@ def c18_confinement(cmd: int, ps: int, cs: int, ch: bool, rec: bool, st: int, sg
                 if cmd == 1 and s['sig'] not in (want, 9) and not after_sigkill:       # Process.stop() terminate()s once more after the SIGKILL
                     rt.note('kill request with signum %r delivered signal %r', sig, s['sig'])
                     ok = False
+            if sc and cmd == 1 and r.replies and r.status == 'ok' and want not in (9,):
+                # stop_children: the children of every addressed worker are addressed too -- each one that did not leave by itself
+                targets = [own[0]] if PIDSEL[ps] in ('own0', 'string_own') else ([own[1]] if PIDSEL[ps] == 'own1' else
+                                                                                  (own if PIDSEL[ps] == 'absent' else []))
+                for wp in targets:
+                    for c in k.children_of(wp, False) + [k.procs[x] for x in ([vanished] if vanished else []) if k.procs[x].orig_ppid == wp]:
+                        if c.pid == vanished and k.procs[c.pid].death_how == 'injected':
+                            continue
+                        if not [x for x in added if x['pid'] == c.pid and x['sig'] == want]:
+                            rt.note('kill %r with stop_children: child %d of worker %d never received signal %r (delivered: %r)', props, c.pid, wp,
+                                    want, [(x['pid'], x['sig']) for x in added])
+                            ok = False
             if r.replies and r.status == 'error' and added and cmd == 0:
                 if not (PIDSEL[ps] == 'absent' and (ch or childv is not None)):
                     rt.note('refused signal request %r (%r) nevertheless signalled %r', props, r.reply.get('reason'), [(s['pid'], s['sig']) for s in added])
@@ -397,5 +416,5 @@ def plan(tier):
         Cond('c18_number', budget=60, bounds={'n': 'R: all integers'}),
         Cond('c18_confinement', shards=[{'ps': i} for i in range(len(PIDSEL))], budget=240 if q else 1200, twins=2,
              bounds={'command': 'S{signal, kill}', 'pid': 'S%r' % (PIDSEL,), 'childpid': 'S%r' % (CHILDSEL,), 'children,recursive': 'S{False, True}',
-                     'state': 'S%r' % (STATES,), 'signal': 'S%r' % (SIGS,), 'stop_children of the named watcher': 'S{off, on (kill, active)}', 'process tree': 'every worker has one child and one grandchild'}),
+                     'state': 'S%r' % (STATES,), 'signal': 'S%r' % (SIGS,), 'stop_children of the named watcher': 'S{off, on (kill, active; two children per worker, the first may exit at kernel call vd)}', 'process tree': 'every worker has one child and one grandchild'}),
     ]
